@@ -94,6 +94,13 @@ func newSubReader(
 			if err != nil {
 				return nil, "", err
 			}
+			if st, serr := candidateF.Stat(); serr == nil && st.IsDir() {
+				// A directory opens fine but cannot be read.
+				// Report it here, so that the error is positioned
+				// at the include directive.
+				_ = candidateF.Close()
+				return nil, "", errors.Newf("%s: is a directory", fName)
+			}
 			f = candidateF
 			r.file = fName
 			break
@@ -189,6 +196,9 @@ func (r *subreader) readLine(
 		var oneline string
 		oneline, err = r.rd.ReadString('\n')
 		if err != nil && err != io.EOF {
+			// Record what was read of the failing line: wrapErr
+			// needs an entry in r.lines for every reported line.
+			r.lines = append(r.lines, oneline)
 			return "", pos{}, true, false, startPos.wrapErr(err)
 		}
 		r.lines = append(r.lines, oneline)
